@@ -124,7 +124,10 @@ def find_powershell_strings(data: bytes) -> list[Node]:
         deobfuscated, obfuscation = deobfuscate_cmd(powershell)
         cmd_node = Node("shell.cmd", deobfuscated, obfuscation, start, end) if obfuscation else None
         if enc:
-            pwsh_invocation, encoded = deobfuscated.rsplit(maxsplit=1)
+            parts = deobfuscated.rsplit(maxsplit=1)
+            if len(parts) != 2:
+                continue  # A line continuation joined the switch to its argument, nothing to split off
+            pwsh_invocation, encoded = parts
             encoded = encoded.strip(b"'\"")
             if len(encoded) % 4 or b"^" in encoded:
                 continue  # invalid base64
